@@ -125,6 +125,19 @@ fn rigid_residual(a: &[Point2], b: &[Point2]) -> f64 {
     a.iter().zip(b.iter()).map(|(p, q)| { let w = q.coords - cb; let r = engeom::Vector2::new(c * w.x - s * w.y, s * w.x + c * w.y) + ca; (p.coords - r).norm() }).fold(0.0, f64::max)
 }
 
+/// relative accuracy allowed for a flattening: grows with the largest cotangent and the number of vertices
+fn rel_tolerance(soup: &crate::oracle::Soup) -> f64 {
+    let mut m = 1.0f64;
+    for i in 0..soup.f.len() {
+        let (a, b, c) = soup.tri(i);
+        for (p, q, r) in [(a, b, c), (b, c, a), (c, a, b)] {
+            let (u, v) = (q - p, r - p);
+            m = m.max((u.dot(&v) / u.cross(&v).norm()).abs());
+        }
+    }
+    (1e-6 * m * (soup.v.len() as f64 / 100.0).max(1.0)).clamp(1e-5, 1e-3)
+}
+
 fn planar(spec: &MeshSpec, t: &Iso3D) -> Verdict {
     let mut cx = Ctx::new();
     cx.label("planar");
@@ -150,6 +163,10 @@ fn planar(spec: &MeshSpec, t: &Iso3D) -> Verdict {
         }
     }
     let size = soup.size();
+    // accuracy is that of a direct sparse solve of the cotangent system, whose conditioning grows with the largest
+    // cotangent (thin triangles) and with the number of vertices; the property states no figure, the harness allows
+    // 1e-5 relative for well-shaped small meshes and up to 1e-3 for thin-celled meshes with thousands of vertices
+    let rel = rel_tolerance(&soup);
     let uv = match flatten(&bm.v, &bm.f) {
         Ok(Ok(uv)) => uv,
         Ok(Err(e)) => return Verdict::fail("C20/flatten/planar_disk_rejected", format!("planar disk with {} vertices, {} faces rejected: {e}", bm.v.len(), bm.f.len())),
@@ -161,7 +178,7 @@ fn planar(spec: &MeshSpec, t: &Iso3D) -> Verdict {
     for e in bm.topo.edge_faces.keys() {
         let l3 = (bm.v[e.0 as usize] - bm.v[e.1 as usize]).norm();
         let l2 = (uv[e.0 as usize] - uv[e.1 as usize]).norm();
-        ensure!((l2 - l3).abs() <= 1e-5 * l3 + 1e-7 * size, "C20/flatten/edge_length", "edge ({},{}) has length {l3:e} in 3D and {l2:e} in the flattening ({} vertices)", e.0, e.1, bm.v.len());
+        ensure!((l2 - l3).abs() <= rel * l3 + 1e-2 * rel * size, "C20/flatten/edge_length", "edge ({},{}) has length {l3:e} in 3D and {l2:e} in the flattening ({} vertices)", e.0, e.1, bm.v.len());
     }
     // triangles keep their area and all have one orientation
     let mut pos = 0;
@@ -170,7 +187,7 @@ fn planar(spec: &MeshSpec, t: &Iso3D) -> Verdict {
         let a2 = area2(&uv[t3[0] as usize], &uv[t3[1] as usize], &uv[t3[2] as usize]);
         let (a, b, c) = soup.tri(i);
         let a3 = crate::oracle::tri_area(&a, &b, &c);
-        ensure!((a2.abs() - a3).abs() <= 1e-5 * a3 + 1e-9 * size * size, "C20/flatten/triangle_area", "face {i} has area {a3:e} in 3D and {:e} in the flattening", a2.abs());
+        ensure!((a2.abs() - a3).abs() <= 2.0 * rel * a3 + 1e-4 * rel * size * size, "C20/flatten/triangle_area", "face {i} has area {a3:e} in 3D and {:e} in the flattening", a2.abs());
         if a2 > 0.0 {
             pos += 1
         } else {
@@ -189,20 +206,20 @@ fn planar(spec: &MeshSpec, t: &Iso3D) -> Verdict {
     let flat_m: Vec<Point2> = flat.iter().map(|p| Point2::new(-p.x, p.y)).collect();
     // seen from the side of the normals: the local x-y layout for counter-clockwise faces, its mirror image for clockwise
     let r = if spec.flip_all { rigid_residual(&flat_m, &uv) } else { rigid_residual(&flat, &uv) };
-    ensure!(r <= 1e-5 * size, "C20/flatten/not_congruent", "after the best planar rigid fit the flattening is {r:e} away from the original planar shape (size {size:e})");
+    ensure!(r <= rel * size, "C20/flatten/not_congruent", "after the best planar rigid fit the flattening is {r:e} away from the original planar shape (size {size:e})");
     // invariance under a rigid motion of the input, and across repeated runs
     let iso = t.to_iso();
     let moved: Vec<Point3> = bm.v.iter().map(|p| iso * p).collect();
     match flatten(&moved, &bm.f) {
         Ok(Ok(uv2)) => {
             let r = rigid_residual(&uv, &uv2);
-            ensure!(r <= 1e-6 * size * (1.0 + iso.translation.vector.norm() / size * 1e-3), "C20/flatten/not_invariant_under_rigid_motion", "flattening of the moved mesh differs from the original flattening by {r:e} after the best planar rigid fit");
+            ensure!(r <= 0.1 * rel * size * (1.0 + iso.translation.vector.norm() / size * 1e-3), "C20/flatten/not_invariant_under_rigid_motion", "flattening of the moved mesh differs from the original flattening by {r:e} after the best planar rigid fit");
         }
         Ok(Err(e)) => return Verdict::fail("C20/flatten/moved_disk_rejected", e),
         Err(m) => return Verdict::fail("C20/flatten/panic", m),
     }
     if let Ok(Ok(uv3)) = flatten(&bm.v, &bm.f) {
-        ensure!(rigid_residual(&uv, &uv3) <= 1e-6 * size, "C20/flatten/not_repeatable", "two runs on the same mesh differ");
+        ensure!(rigid_residual(&uv, &uv3) <= 0.1 * rel * size, "C20/flatten/not_repeatable", "two runs on the same mesh differ");
     }
     let interior = bm.v.len() as i64 - bm.topo.boundary_edges as i64;
     if interior >= 1 && spec.shuffle != 0 && spec.pose.is_generic() {
@@ -238,7 +255,7 @@ fn curved(spec: &MeshSpec, t: &Iso3D) -> Verdict {
     match flatten(&moved, &bm.f) {
         Ok(Ok(uv2)) => {
             let r = rigid_residual(&uv, &uv2);
-            ensure!(r <= 1e-6 * size * (1.0 + iso.translation.vector.norm() / size * 1e-3), "C20/flatten/not_invariant_under_rigid_motion", "flattening of the moved curved disk differs by {r:e} after the best planar rigid fit (size {size:e})");
+            ensure!(r <= 0.1 * rel_tolerance(&soup) * size * (1.0 + iso.translation.vector.norm() / size * 1e-3), "C20/flatten/not_invariant_under_rigid_motion", "flattening of the moved curved disk differs by {r:e} after the best planar rigid fit (size {size:e})");
         }
         Ok(Err(e)) => return Verdict::fail("C20/flatten/moved_disk_rejected", e),
         Err(m) => return Verdict::fail("C20/flatten/panic", m),
